@@ -731,7 +731,7 @@ func TestVerifC06Hist(t *testing.T) {
 						}
 					}
 					h.Op("pick %d %s %s", ncpu, c06Blk(c06SortedKeys(freeNow)), c06Blk(got))
-					h.Obs("pick 1")
+					h.Obs("pick %d", vB(c06Contract(freeNow, ncpu, got)))
 				} else if len(got) != 0 {
 					h.Fail("C06:cpuset-count", "no cpu bind requested, got %v", got)
 				}
@@ -925,6 +925,19 @@ func c06MakeAlloc(uid int, excl schedulingconfig.CPUExclusivePolicy, cpus []int,
 	return pa
 }
 
+// c06Contract: n CPUs, all from the free set (cpuset.CPUSet has no duplicates by construction).
+func c06Contract(free map[int]bool, n int, got []int) bool {
+	if len(got) != n {
+		return false
+	}
+	for _, c := range got {
+		if !free[c] {
+			return false
+		}
+	}
+	return true
+}
+
 // ---------------------------------------------------------------- picker on arbitrary free sets
 
 func TestVerifC06Pick(t *testing.T) {
@@ -1023,7 +1036,7 @@ func TestVerifC06Pick(t *testing.T) {
 		if err == nil {
 			s := c06SortedCPUs(got)
 			h.Op("pick %d %s %s", need, c06Blk(avail), c06Blk(s))
-			h.Obs("pick 1")
+			h.Obs("pick %d", vB(c06Contract(inAvail, need, s)))
 			if len(s) != need {
 				h.Fail("C06:cpuset-count", "requested %d CPUs, got %d: %v (free %v; topology %dx%dx%dx%d sockets x nodes x cores x threads, bind policy %q, exclusive %q, maxRefCount %d, strategy %s, preferred %v)",
 					need, len(s), s, avail, dims[0], dims[1], dims[2], dims[3], bind, excl, maxRef, strategy, preferred)
